@@ -119,7 +119,7 @@ Definition setup_env (c : cfg) (script : bytes) (stack : list bytes) (succ : byt
   let big := script_too_big (c_sigver c) script in
   let e := {| e_script := script; e_cb := Some script; e_stack := stack; e_alt := []; e_cond := cs_empty_stack;
               e_ops := 0; e_pos := 0; e_ed := ed; e_err := if big then SCRIPT_ERR_SCRIPT_SIZE else SCRIPT_ERR_UNKNOWN_ERROR |} in
-  let isp := negb big && p2sh_shape (c_flags c) script in
+  let isp := negb big && (c_sigver c =? SV_BASE) && p2sh_shape (c_flags c) script in       (* only a legacy script can be pay-to-script-hash *)
   {| i_e := e; i_pc := script; i_hist := []; i_seq := 0;
      i_done := (match script with [] => true | _ => false end) && (match succ with [] => true | _ => false end);
      i_p2sh := isp; i_p2shstack := if isp then stack else [];
